@@ -1804,6 +1804,21 @@ def generate_id_rules(A, rule):
     A.check(v_ is not None and match('0', v_) is not None, rule + '.counter',
             'the counter starts at 0 as a class attribute and becomes per-instance on first write',
             'src/engineio/base_server.py', key='id-counter-init', detail=txt(v_))
+    # the counter is one plain integer attribute per server: a property / descriptor (e.g. a
+    # thread-local) gives every worker its own sequence, so two ids issued in a row by
+    # different workers carry the same counter value
+    for fl_ in FLAVOURS:
+        for k in A.model.mro(A.model.cls(fl_['server'])):
+            desc = k.methods.get('sequence_number')
+            av = k.attrs.get('sequence_number')
+            A.check(desc is None and (av is None or match('0', av) is not None),
+                    rule + '.counter', '%s: sequence_number is a plain per-server integer '
+                    'attribute' % k.qualname, '%s:%d' % (k.module.relpath, k.node.lineno),
+                    key='id-counter-plain:%s' % k.qualname,
+                    detail=['property/method' if desc is not None else txt(av)],
+                    behaviour='consecutively issued ids of one server share the counter value '
+                              '(one sequence per thread): equal ids when the random source '
+                              'repeats')
     # WHO-MAY: the counter is written by generate_id() only
     for f in A.model.all_funcs():
         if f.module.name.startswith('async_drivers'):
@@ -1977,7 +1992,7 @@ def post_catch_all_rule(A, fl, rule):
                             % (rule, fi.qualname))
 
 
-def asgi_rules(A, rule, buffering_rule=None):
+def asgi_rules(A, rule, buffering_rule=None, response_only=False):
     mi = A.model.module('async_drivers.asgi')
     if buffering_rule and rule == buffering_rule:
         return _asgi_buffering(A, buffering_rule)
@@ -2021,6 +2036,8 @@ def asgi_rules(A, rule, buffering_rule=None):
                 A.check(txt(d.get('status')) == "int(status.split(' ')[0])", rule + '.asgi-http',
                         'ASGI: the numeric status is taken from the status line', A.site(mr),
                         key='asgi-http-status', detail=txt(d.get('status')))
+    if response_only:
+        return
     tr = A.func('async_drivers.asgi.translate_request')
     ps = [p for p in A.paths(A.enum(follow_handlers=False, loop_bound=1), tr)
           if p.outcome == 'return']
@@ -3193,3 +3210,181 @@ def driver_handler_rule(A, rule):
             detail=[d for p in ps[:2] for d in p.describe(12)],
             behaviour='the WebSocket is accepted but the engine never reads from or writes to it')
     A.floor(rule, 'driver WebSocket classes that store the handler', n, 4)
+
+
+# ---------------------------------------------------------------------------------------
+# round-5 rules
+# ---------------------------------------------------------------------------------------
+REASONS = {'CLIENT_DISCONNECT': 'client disconnect', 'SERVER_DISCONNECT': 'server disconnect',
+           'PING_TIMEOUT': 'ping timeout', 'TRANSPORT_CLOSE': 'transport close',
+           'TRANSPORT_ERROR': 'transport error'}
+
+
+def reason_constants_rule(A, rule):
+    """The disconnect reasons are five different documented texts: two causes with the same
+    text cannot be told apart by a handler."""
+    for qual in ('base_server.BaseServer', 'base_client.BaseClient'):
+        ci = A.model.cls(qual)
+        rc = ci.nested_classes.get('reason')
+        if rc is None:
+            raise AnalysisError('%s: %s.reason vanished' % (rule, qual))
+        vals = {}
+        for k, v in rc.attrs.items():
+            if isinstance(v, ast.Constant) and isinstance(v.value, str):
+                vals[k] = v.value
+        for k, want in REASONS.items():
+            if k in vals or qual.startswith('base_server'):
+                A.check(vals.get(k) == want, rule + '.reason-texts',
+                        '%s.reason.%s is %r' % (qual, k, want),
+                        '%s:%d' % (ci.module.relpath, getattr(rc.node, 'lineno', 0)),
+                        key='reason-text:%s:%s' % (qual.split('.')[-1], k),
+                        detail=repr(vals.get(k)),
+                        behaviour='the disconnect reason does not name the cause')
+        A.check(len(set(vals.values())) == len(vals), rule + '.reason-texts',
+                '%s.reason: the reasons are pairwise different' % qual,
+                '%s:%d' % (ci.module.relpath, getattr(rc.node, 'lineno', 0)),
+                key='reason-distinct:%s' % qual.split('.')[-1], detail=sorted(vals.items()))
+
+
+def awaited_rule(A, fl, rule):
+    """asyncio flavour: a coroutine method of the server / session that is called for its
+    effect is awaited (a bare call only creates a coroutine object: nothing happens)."""
+    if fl['name'] != 'asyncio':
+        return
+    names = set()
+    for qual in (fl['server'], fl['socket']):
+        for k in A.model.mro(A.model.cls(qual)):
+            for m in k.methods.values():
+                if isinstance(m.node, ast.AsyncFunctionDef):
+                    names.add(m.name)
+    n = 0
+    for qual in (fl['server'], fl['socket']):
+        ci = A.model.cls(qual)
+        for m in ci.methods.values():
+            for node in ast.walk(m.node):
+                if isinstance(node, ast.Expr) and isinstance(node.value, ast.Call) and \
+                        isinstance(node.value.func, ast.Attribute) and \
+                        node.value.func.attr in names:
+                    recv = txt(node.value.func.value)
+                    if recv == 'self' or recv.startswith('self.sockets') or recv in (
+                            'socket', 's', 'client', 'self.server'):
+                        n += 1
+                        A.violated(rule + '.awaited', 'asyncio: %s() is awaited where it is '
+                                   'called for its effect' % node.value.func.attr,
+                                   A.site(m, node), key='asyncio-unawaited:%s:%s' % (
+                                       m.name, node.value.func.attr), detail=ast.unparse(node),
+                                   behaviour='the call does nothing (the coroutine is never '
+                                             'run): e.g. the session is dropped from the table '
+                                             'without a disconnect event')
+    if n == 0:
+        A.ok(rule + '.awaited', 'asyncio: no coroutine method is called without await (%d '
+             'coroutine names)' % len(names), 'src/engineio/async_server.py')
+
+
+def heartbeat_config_rule(A, rule):
+    """The constructor stores ping_timeout as configured (the deadline the application asked
+    for is the deadline that is applied)."""
+    fi = A.func('base_server.BaseServer.__init__')
+    bs = A.model.cls('base_server.BaseServer')
+    sl = _config_slice(A, fi, 'ping_timeout', ['self', 'ping_timeout', 'ping_interval'])
+    ps = [p for p in A.paths(A.enum(follow_handlers=False), sl, bs) if p.outcome != 'cut']
+    A.floor(rule, 'constructor paths storing ping_timeout', len(ps), 1)
+    for p in ps:
+        v = PV(p)
+        w = [val for i, val in v.writes('self.ping_timeout')]
+        A.check(p.outcome == 'return' and w == ['ping_timeout'], rule + '.config',
+                'the constructor stores ping_timeout exactly as given', A.site(fi),
+                key='ctor-config-ping_timeout', detail=w + list(v.describe(12)),
+                behaviour='a peer that answers within the configured ping_timeout is dropped '
+                          '(or a dead one is kept longer than configured)')
+
+
+def asgi_close_reason_rule(A, rule):
+    """The value a connect handler rejected with reaches an ASGI WebSocket client whole: the
+    close reason is the payload as text, not a slice or a rewrite of it."""
+    mr = A.func('async_drivers.asgi.make_response')
+    ps = [p for p in A.paths(A.enum(follow_handlers=False, loop_bound=1), mr)
+          if p.outcome == 'return']
+    accepted = ("payload.decode('utf-8')", 'payload.decode()', 'str(payload)', 'payload',
+                "str(payload, 'utf-8')", "payload.decode(encoding='utf-8')")
+    n = 0
+    for p in ps:
+        v = PV(p)
+        vals = []
+        for i, e in enumerate(v.ev):
+            if e.kind == 'call' and 'websocket.close' in txt(e.expr):
+                for d in ast.walk(unawait(e.expr)):
+                    if isinstance(d, ast.Dict):
+                        for k, val in zip(d.keys, d.values):
+                            if isinstance(k, ast.Constant) and k.value == 'reason':
+                                vals.append((i, val))
+            if e.kind == 'write' and txt(e.target).endswith("['reason']"):
+                vals.append((i, e.expr))
+        for i, val in vals:
+            n += 1
+            t = txt(unawait(val))
+            A.check(t in accepted, rule + '.reject-value', 'ASGI: the WebSocket close reason '
+                    'carries the rejection value unchanged', A.site(mr, v.node(i)),
+                    key='asgi-close-reason', detail=[t] + list(v.describe(12)),
+                    behaviour='a rejected WebSocket open does not carry the value the connect '
+                              'handler returned')
+    A.floor(rule, 'asgi make_response paths giving a close reason', n, 1)
+
+def asgi_wait_fields_rule(A, rule):
+    """An ASGI ``websocket.receive`` event carries *both* keys, ``bytes`` and ``text``, one of
+    them None: wait() returns the field that is set.  A return of one field alone is only
+    accepted under a test of a field's *value* (key presence says nothing)."""
+    ci = A.model.cls('async_drivers.asgi.WebSocket')
+    wait = ci.methods.get('wait')
+    if wait is None:
+        raise AnalysisError('%s: asgi WebSocket.wait vanished' % rule)
+    ps = [p for p in A.paths(A.enum(follow_handlers=True, loop_bound=1), wait, ci)
+          if p.outcome == 'return' and p.value is not None]
+    A.floor(rule, 'asgi wait() return paths', len(ps), 1)
+    fld = re.compile(r"\.get\('(bytes|text)'\)|\['(bytes|text)'\]")
+    for p in ps:
+        v = PV(p)
+        rv = txt(unawait(p.value))
+        named = {a or b for a, b in fld.findall(rv)}
+        tested = [a for a, _ in v.guard_atoms(decided=False) if fld.search(a)]
+        ok = named == {'bytes', 'text'} or (len(named) == 1 and bool(tested))
+        A.check(ok, rule + '.driver-wait', 'asgi wait() returns the field of the receive event '
+                'that is set (binary or text)', A.site(wait), key='asgi-wait-fields',
+                detail=[rv] + list(v.describe(10)),
+                behaviour='a text frame is read as None under ASGI: the read loop takes it for '
+                          'a closed connection and every WebSocket session dies on its first '
+                          'text packet')
+
+
+def asgi_close_total_rule(A, rule):
+    """AsyncSocket._websocket_handler relies on ws.close() never raising (its final close() of
+    the session comes after it).  Under ASGI the send callable of a connection that is gone
+    raises: an OSError subclass according to the ASGI specification, RuntimeError in uvicorn.
+    The handler around the ``websocket.close`` send covers both."""
+    ci = A.model.cls('async_drivers.asgi.WebSocket')
+    cl = ci.methods.get('close')
+    if cl is None:
+        raise AnalysisError('%s: asgi WebSocket.close vanished' % rule)
+    ps = [p for p in A.paths(A.enum(follow_handlers=True), cl, ci) if p.outcome != 'cut']
+    caught = set()
+    n = 0
+    for p in ps:
+        v = PV(p)
+        s = [i for i, e in enumerate(v.ev) if e.kind == 'call' and 'websocket.close' in txt(e.expr)]
+        if not s:
+            continue
+        n += 1
+        hs = [e for e in v.ev[s[0] + 1:] if e.kind == 'handler']
+        if hs and p.outcome == 'return':
+            caught |= set(str(hs[0].cls).split('|'))
+    A.floor(rule, 'asgi close() paths sending websocket.close', n, 1)
+    P = A.resolver.exc_parents
+    for want in ('OSError', 'RuntimeError'):
+        ok = '*' in caught or any(c in ('Exception', 'BaseException') or c == want or
+                                  exc_is_subclass(want, c, P) for c in caught)
+        A.check(ok, rule + '.driver-close', 'asgi WebSocket.close() does not raise when the '
+                'connection is already gone (%s from the send is swallowed)' % want,
+                A.site(cl), key='asgi-close-swallows:%s' % want, detail=sorted(caught),
+                behaviour='the exception escapes the writer task, _websocket_handler skips its '
+                          'final close(): the session of a gone client stays in the table and '
+                          'no disconnect event is delivered')
